@@ -194,8 +194,8 @@ Section ProofsE.
              change (evalC H rc + a0 = evalC H r); rewrite (ALL H Hall); ring end).
     - (* CGauss *)
       assert (E : forall i, eval (simplify cs rc e) r i = eval e r i) by (intros; now apply simplify_value).
-      simpl. transitivity (evalC (CGauss n data icov e) r); [|reflexivity]. simpl.
-      destruct icov; simpl; rewrite (sumn_ext n _ _ (fun j => eq_refl)); 
+      simpl.
+      destruct icov; simpl;
       match goal with |- ?x + a0 = ?y => assert (X : x = y); [|rewrite X; ring] end;
       f_equal; apply sumn_ext; intros j; destruct data; simpl; now rewrite !E.
     - (* CScale *)
@@ -221,5 +221,151 @@ Section ProofsE.
     - (* CConst *) simpl in Hany. discriminate.
     - (* CIns *) simpl. rewrite (merge_agree cs rc r Ha). ring.
     - (* CGamma *) simpl. rewrite (merge_agree cs rc r Ha). ring.
+  Qed.
+
+  (* ---- Jacobians ------------------------------------------------------------------------------------- *)
+  Notation evalED := (evalED A a0 a1 ahalf aadd amul asub P ptab).
+  Definition jacC (wm : bool) (h : cen) (r : env) : jop A := snd (fst (linC wm h r)).
+
+  Lemma jac_CScale wm c h r : jacC wm (CScale c h) r = JCh (Sc c) (jacC wm h r).
+  Proof. unfold jacC; simpl. destruct (linC wm h r) as [[v J] m]. reflexivity. Qed.
+  Lemma jac_CAddL wm h1 h2 r : jacC wm (CAddL h1 h2) r = JAd (jacC wm h1 r) (jacC wm h2 r).
+  Proof. unfold jacC; simpl. destruct (linC wm h1 r) as [[v1 J1] m1]; destruct (linC wm h2 r) as [[v2 J2] m2]. reflexivity. Qed.
+  Lemma jac_CHam wm h r : jacC wm (CHam h) r = JAd (jacC wm h r) (prior_jac (ukeys h) r).
+  Proof. unfold jacC; simpl. destruct (linC wm h r) as [[v J] m]. reflexivity. Qed.
+  Lemma jac_CIns wm cs rc h r : jacC wm (CIns cs rc h) r = JMask cs (jacC wm h (merge cs rc r)).
+  Proof. unfold jacC; simpl. destruct (linC wm h (merge cs rc r)) as [[v J] m]. reflexivity. Qed.
+  Lemma jac_CGauss wm n data icov e r d :
+    times (jacC wm (CGauss n data icov e) r) d 0 = snd (evalED (EGauss n data icov e) r d).
+  Proof. unfold jacC. cbn [Model.linC]. apply (linE_jac_dual A a0 a1 ahalf aadd amul asub aopp anonneg Rth P ptab Hpure Hhalf). Qed.
+  Lemma jac_CVCG wm n uff kr ki r d :
+    times (jacC wm (CVCG n uff kr ki) r) d 0 = snd (evalD (vcg_expr n kr ki) r d 0).
+  Proof.
+    unfold jacC. cbn [Model.linC].
+    rewrite <- (jac_dual A a0 a1 aadd amul asub aopp Rth P ptab Hpure false (vcg_expr n kr ki) r d 0).
+    destruct (lin false (vcg_expr n kr ki) r). reflexivity.
+  Qed.
+
+  Lemma dual_keys e r : forall d d' : env, (forall k, In k (keys e) -> forall i, d k i = d' k i) ->
+    forall i, snd (evalD e r d i) = snd (evalD e r d' i).
+  Proof.
+    assert (F : forall e d d' i, fst (evalD e r d i) = fst (evalD e r d' i)).
+    { intros. now rewrite !(dual_value A a0 a1 aadd amul asub P ptab). }
+    induction e; simpl; intros d d' H i.
+    - apply H; now left.
+    - reflexivity.
+    - specialize (IHe d d' H i). destruct (evalD e r d i); destruct (evalD e r d' i); simpl in *. exact IHe.
+    - specialize (IHe d d' H i). destruct (evalD e r d i); destruct (evalD e r d' i); simpl in *. now rewrite IHe.
+    - specialize (IHe d d' H i). destruct (evalD e r d i); destruct (evalD e r d' i); simpl in *. now rewrite IHe.
+    - specialize (IHe d d' H i). pose proof (F e d d' i) as Hf.
+      destruct (evalD e r d i); destruct (evalD e r d' i); simpl in *. now rewrite IHe, Hf.
+    - specialize (IHe1 d d' (fun k Hk => H k (in_or_app _ _ _ (or_introl Hk))) i).
+      specialize (IHe2 d d' (fun k Hk => H k (in_or_app _ _ _ (or_intror Hk))) i).
+      pose proof (F e1 d d' i) as Hf1. pose proof (F e2 d d' i) as Hf2.
+      destruct (evalD e1 r d i); destruct (evalD e1 r d' i); destruct (evalD e2 r d i); destruct (evalD e2 r d' i); simpl in *.
+      now rewrite IHe1, IHe2, Hf1, Hf2.
+    - specialize (IHe1 d d' (fun k Hk => H k (in_or_app _ _ _ (or_introl Hk))) i).
+      specialize (IHe2 d d' (fun k Hk => H k (in_or_app _ _ _ (or_intror Hk))) i).
+      destruct (evalD e1 r d i); destruct (evalD e1 r d' i); destruct (evalD e2 r d i); destruct (evalD e2 r d' i); simpl in *.
+      now rewrite IHe1, IHe2.
+    - apply sumn_ext; intros j. now apply IHe.
+    - apply sumn_ext; intros j.
+      rewrite (IHe1 d d' (fun k Hk => H k (in_or_app _ _ _ (or_introl Hk)))).
+      rewrite (IHe2 d d' (fun k Hk => H k (in_or_app _ _ _ (or_intror Hk)))).
+      now rewrite (F e1 d d' j), (F e2 d d' j).
+    - apply sumn_ext; intros j. now rewrite (IHe d d' H), (F e d d' j).
+  Qed.
+
+  Lemma evalED_gauss_ext n data icov e e' r d d' :
+    (forall i, fst (evalD e r d i) = fst (evalD e' r d' i)) ->
+    (forall i, snd (evalD e r d i) = snd (evalD e' r d' i)) ->
+    snd (evalED (EGauss n data icov e) r d) = snd (evalED (EGauss n data icov e') r d').
+  Proof.
+    intros Hf Hs. simpl. destruct icov; simpl; f_equal; apply sumn_ext; intros j; destruct data; now rewrite ?Hf, ?Hs.
+  Qed.
+
+  Lemma prior_jac_times l r d :
+    times (prior_jac l r) d 0 = ahalf * ksum (fun k => sumn (dims k) (fun j => (two * r k j) * d k j)) l.
+  Proof.
+    unfold Model.prior_jac. simpl. f_equal. induction l; simpl; [reflexivity|]. now rewrite IHl.
+  Qed.
+
+  Lemma jacC_keys wm h : forall (r d d' : env), (forall k, In k (ekeys h) -> forall i, d k i = d' k i) ->
+    times (jacC wm h r) d 0 = times (jacC wm h r) d' 0.
+  Proof.
+    induction h; intros x d d' H.
+    - rewrite !jac_CGauss. apply evalED_gauss_ext; intros i.
+      + now rewrite !(dual_value A a0 a1 aadd amul asub P ptab).
+      + apply dual_keys. exact H.
+    - rewrite jac_CScale. simpl. now rewrite (IHh x d d' H).
+    - rewrite jac_CAddL. simpl in *. rewrite (IHh1 x d d'), (IHh2 x d d'); auto; intros; apply H; apply in_or_app; tauto.
+    - rewrite !jac_CVCG. apply dual_keys. intros k Hk. apply H. simpl in *. tauto.
+    - rewrite jac_CHam. cbn [Model.times]. rewrite (IHh x d d' H). f_equal.
+      rewrite !prior_jac_times. f_equal. apply ksum_ext. intros k Hk. apply sumn_ext; intros j.
+      unfold Model.ukeys in Hk. apply nodup_In in Hk. now rewrite (H k Hk j).
+    - reflexivity.
+    - rewrite jac_CIns. simpl. apply IHh. intros k Hk i. destruct (cs k) eqn:E; [reflexivity|].
+      apply H. simpl. apply filter_In. split; [exact Hk | now rewrite E].
+    - unfold jacC. simpl in *. f_equal. f_equal.
+      + apply sumn_ext; intros j. now rewrite (H ki) by tauto.
+      + f_equal. apply sumn_ext; intros j. now rewrite (H ki) by tauto.
+  Qed.
+
+  Lemma times_zero_env J : times J (fun _ _ => a0) 0 = a0.
+  Proof. apply (times_zero A a0 a1 aadd amul asub aopp Rth). Qed.
+
+  (* C04_jac for energies *)
+  Lemma simplifyC_times wm cs rc r d h : agree cs rc r ->
+    times (jacC wm (simplifyC cs rc h) r) d 0 = times (jacC wm h r) (mask cs d) 0.
+  Proof.
+    intros Ha.
+    induction h; rewrite simplifyC_eq;
+      match goal with |- context [anyc cs ?l] => destruct (anyc cs l) eqn:Hany end; simpl negb; cbv iota;
+      try (apply jacC_keys; intros k Hk i; unfold Model.mask;
+           assert (Ek : cs k = false) by
+             (destruct (cs k) eqn:E; [|reflexivity]; exfalso;
+              assert (X : anyc cs _ = true) by (apply existsb_exists; exists k; split; [exact Hk | exact E]);
+              rewrite X in Hany; discriminate);
+           now rewrite Ek);
+      match goal with |- context [allc cs ?l] => destruct (allc cs l) eqn:Hall end;
+      try (match goal with |- times (jacC wm (CConst _) r) d 0 = times (jacC wm ?H r) _ 0 =>
+             rewrite (jacC_keys wm H r (mask cs d) (fun _ _ => a0));
+             [ now rewrite times_zero_env
+             | intros k Hk i; unfold Model.mask; now rewrite (allc_all cs _ Hall k Hk) ] end).
+    - (* CGauss *)
+      rewrite !jac_CGauss. apply evalED_gauss_ext; intros i.
+      + rewrite !(dual_value A a0 a1 aadd amul asub P ptab). now apply simplify_value.
+      + apply simplify_dual with (aopp := aopp); auto.
+    - (* CScale *)
+      rewrite !jac_CScale. simpl. now rewrite IHh.
+    - (* CAddL -> insertion *)
+      rewrite jac_CIns. rewrite (merge_agree cs rc r Ha). reflexivity.
+    - (* CVCG *)
+      rewrite jac_CVCG.
+      simpl in Hany, Hall. destruct (cs kr) eqn:Ekr.
+      + destruct (cs ki) eqn:Eki; [simpl in Hall; discriminate|].
+        assert (Hne : kr <> ki) by (intros ->; congruence).
+        unfold jacC. simpl. unfold Model.mask. rewrite Ekr, Eki.
+        match goal with |- ?x + a0 = ?y => assert (X : x = y); [|rewrite X; ring] end.
+        f_equal. f_equal. apply sumn_ext; intros j. rewrite (Ha kr Ekr j). ring.
+      + destruct (cs ki) eqn:Eki; [|simpl in Hany; discriminate].
+        assert (Hne : kr <> ki) by (intros ->; congruence).
+        unfold jacC. simpl. unfold Model.mask. rewrite Ekr, Eki.
+        match goal with |- ?x + a0 + a0 = ?y => assert (X : x = y); [|rewrite X; ring] end.
+        rewrite (sumn_ext n (fun j => phd (ptab plog) (r ki j) * a0) (fun _ => a0)) by (intros; ring).
+        rewrite sumn_zero.
+        rewrite (sumn_ext n (fun j => r kr j * (r kr j * a0 + r ki j * d kr j) + r kr j * r ki j * d kr j)
+                          (fun j => two * (rc ki j * r kr j * d kr j)))
+          by (intros j; rewrite (Ha ki Eki j); unfold Model.two; ring).
+        rewrite sumn_scal.
+        transitivity ((ahalf * two) * sumn n (fun j => rc ki j * r kr j * d kr j)); [rewrite Hhalf; ring | ring].
+    - (* CHam *)
+      rewrite !jac_CHam. cbn [Model.times]. rewrite IHh. f_equal.
+      rewrite !prior_jac_times, ukeys_simplifyC, ksum_filter. f_equal. apply ksum_ext. intros k _.
+      unfold nc, Model.mask. destruct (cs k); simpl.
+      * rewrite (sumn_ext _ _ (fun _ => a0)) by (intros; ring). now rewrite sumn_zero.
+      * reflexivity.
+    - (* CIns *) rewrite (jac_CIns wm cs rc). rewrite (merge_agree cs rc r Ha). reflexivity.
+    - (* CGamma *) rewrite (jac_CIns wm cs rc). rewrite (merge_agree cs rc r Ha). reflexivity.
   Qed.
 End ProofsE.
